@@ -145,6 +145,8 @@ type Kube struct {
 	uid   int64
 	// Lagfree: store update and notification happen at once when the truth changes.
 	Lagfree bool
+	// NoLagKinds: kinds whose informer store follows the truth at once.
+	NoLagKinds map[string]bool
 	// delivering is true while a handler runs (no nested scheduling).
 	delivering bool
 	// counters
@@ -199,6 +201,10 @@ func (k *Kube) Apply(kind, key string, obj client.Object) bool {
 	s.storeQ = append(s.storeQ, delta{key: key, obj: copyObj(obj)})
 	if k.Lagfree {
 		k.Flush()
+	} else if k.NoLagKinds[kind] {
+		for len(s.storeQ) > 0 {
+			k.Step("store:" + kind)
+		}
 	}
 	return true
 }
@@ -561,3 +567,21 @@ func (i *simInformer) RemoveEventHandler(toolscache.ResourceEventHandlerRegistra
 func (i *simInformer) AddIndexers(toolscache.Indexers) error                                  { return nil }
 func (i *simInformer) HasSynced() bool                                                        { return true }
 func (i *simInformer) IsStopped() bool                                                        { return false }
+
+// invalidWorld reports a world that cannot exist in a cluster: an Endpoints
+// address whose target pod does not exist (pods precede their endpoints).
+func (k *Kube) invalidWorld() string {
+	for _, key := range k.TruthKeys(KEndpoints) {
+		ep := k.Truth(KEndpoints, key).(*api.Endpoints)
+		for _, ss := range ep.Subsets {
+			for _, a := range append(append([]api.EndpointAddress{}, ss.Addresses...), ss.NotReadyAddresses...) {
+				if a.TargetRef != nil && a.TargetRef.Kind == "Pod" {
+					if k.Truth(KPod, a.TargetRef.Namespace+"/"+a.TargetRef.Name) == nil {
+						return "endpoints " + key + " refer to missing pod " + a.TargetRef.Name
+					}
+				}
+			}
+		}
+	}
+	return ""
+}
